@@ -423,6 +423,10 @@ func (v *FHIRPathVisitor) VisitExternalConstant(ctx *grammar.ExternalConstantCon
 // root of the expression. If so, it will return a TypeExpression. Otherwise, it returns a FieldExpression.
 func (v *FHIRPathVisitor) VisitMemberInvocation(ctx *grammar.MemberInvocationContext) interface{} {
 	identifier := ctx.GetText()
+	// A delimited identifier (`div`) names an element whose name is a keyword.
+	if len(identifier) >= 2 && strings.HasPrefix(identifier, "`") && strings.HasSuffix(identifier, "`") {
+		identifier = identifier[1 : len(identifier)-1]
+	}
 	var expression expr.Expression
 
 	if resource.IsType(identifier) && !v.visitedRoot {
